@@ -5,7 +5,7 @@
    NLP analysis nl (ANY multipliers / rankings): so the lexical, NLP-enhanced and typo-fallback
    paths of SearchUniversal are all covered. The cached path is C05 (cached answer = this answer). *)
 From Coq Require Import List ZArith NArith Bool Floats Sorting.Sorted.
-From WTF Require Import Model.Validate Model.Text Model.Platform Model.Engine Model.Recovery Proofs.EngineProofs Proofs.RecoveryProofs.
+From WTF Require Import Model.Validate Model.Text Model.Platform Model.Engine Model.Recovery Model.Legacy Proofs.EngineProofs Proofs.RecoveryProofs Proofs.LegacyProofs.
 Import ListNotations.
 
 (* no entry twice; at most the limit in force (10 when none or a non-positive one is given);
@@ -43,7 +43,19 @@ Theorem c01_recovery : forall qlc db r, recover qlc db = Some r ->
   (forall a b, In a r -> In b r -> snd a = snd b).
 Proof. exact recover_wellformed. Qed.
 
+(* the pipeline search (Model/Legacy.v: the scan behind `wtf pipeline`), for ANY per-command scorer, any database, option
+   values and limit: at most the limit in force (5 when none is given), nobody twice, only entries of the database with a
+   positive score - pipelines only when only pipelines are asked for - in non-increasing order *)
+Theorem c01_pipeline_search : forall score cmds po boost limit,
+  let r := pipeline_search score cmds po boost limit in
+  (Z.of_nat (length r) <= legacy_limit limit)%Z /\
+  NoDup (map fst r) /\
+  (forall i s, In (i, s) r -> exists c, nth_error cmds i = Some c /\ PrimFloat.ltb 0 s = true /\ (po = true -> pipeline_cmd c = true)) /\
+  Sorted (desc_adj by_score) r.
+Proof. exact pipeline_search_wellformed. Qed.
+
 Print Assumptions c01_bounded_members_nodup.
+Print Assumptions c01_pipeline_search.
 Print Assumptions c01_ranked.
 Print Assumptions c01_fuzzy_ranked_partial.
 Print Assumptions c01_recovery.
